@@ -265,8 +265,29 @@ def grep_forbidden():
     return hits
 
 
+def ext_corpus():
+    """L1c: the items of the repository's test-suite and documentation (`<args>\\t<item>` per line)"""
+    import glob
+    path = f'{WORK}/l1/corpus.tsv'
+    os.makedirs(f'{WORK}/l1', exist_ok=True)
+    files = sorted(glob.glob(f'{REPO}/derive-ex-tests/tests/*.rs')) + [f'{REPO}/doc/derive_ex.md', f'{REPO}/README.md']
+    r = subprocess.run([XCHECK, 'corpus'] + files, capture_output=True, text=True, env=ENV)
+    tmp = f'{path}.{os.getpid()}'
+    open(tmp, 'w').write(r.stdout)
+    os.replace(tmp, path)
+    return path
+
+
 def _l1_chunk(args):
     fam, seed, start, count, outpath = args
+    if fam == 'ext':
+        # inputs that do not come from the model's generators: the corpus itself (chunk 0) and mutants of it that lie
+        # inside the model's fragment; `count` is the number of mutation attempts
+        corpus = f'{WORK}/l1/corpus.tsv'
+        src = f'{XCHECK} ser {corpus}' if start == 0 else f'{XCHECK} mutants {corpus} {seed * 100003 + start} {count}'
+        cmd = f'({src}) 2>/dev/null | {DRV} ext | {XCHECK} l1 - {outpath}'
+        r = subprocess.run(cmd, shell=True, capture_output=True, text=True, env=ENV)
+        return outpath, r.returncode, r.stderr[-2000:]
     cmd = f'{DRV} gen {fam} {seed} {start} {count} | {XCHECK} l1 - {outpath}'
     r = subprocess.run(cmd, shell=True, capture_output=True, text=True, env=ENV)
     return outpath, r.returncode, r.stderr[-2000:]
@@ -305,6 +326,8 @@ def run_l1(tag, fam, seed, total, start=0):
     """Runs `total` cases of a family through model and real expander in parallel.
     Returns dict(summary=..., mismatches=[...], failed=[...])."""
     os.makedirs(f'{WORK}/l1', exist_ok=True)
+    if fam == 'ext':
+        ext_corpus()
     nchunks = max(1, min(NPROC, total // 200 or 1))
     per = (total + nchunks - 1) // nchunks
     jobs = []
@@ -322,7 +345,7 @@ def run_l1(tag, fam, seed, total, start=0):
             if rc != 0:
                 # the comparer died (a stack overflow or an abort inside the expander cannot be caught in-process):
                 # find the case that kills it
-                crash = _bisect_crash(job[0], job[1], job[2], job[3], outpath)
+                crash = _bisect_crash(job[0], job[1], job[2], job[3], outpath) if job[0] != 'ext' else None
                 if crash:
                     mismatches.append(crash)
                     summary['bad_cases'] += 1
@@ -435,6 +458,35 @@ def alone_l1(tag, m):
                 res += d['mismatches']
     os.remove(out)
     return res
+
+
+def run_ext_single(tag, entry, args, item):
+    """one externally given input through serialiser, model and comparer; returns its mismatch records (None: the input is
+    outside the model's fragment)"""
+    os.makedirs(f'{WORK}/l1', exist_ok=True)
+    tsv = f'{WORK}/l1/{tag}.single.tsv'
+    out = f'{WORK}/l1/{tag}.single.jsonl'
+    if entry == 'derive':
+        # the derive form was built as `#[derive_ex(args)] item`: split it again
+        m = re.match(r'\s*#\s*\[\s*derive_ex\s*\((.*?)\)\s*\]\s*(.*)$', item, re.S)
+        if not m:
+            return None
+        args, item = m.group(1), m.group(2)
+    open(tsv, 'w').write(args.replace('\n', ' ') + '\t' + item.replace('\n', ' ') + '\n')
+    cmd = f'({XCHECK} ser {tsv}) 2>/dev/null | {DRV} ext | {XCHECK} l1 - {out}'
+    r = subprocess.run(cmd, shell=True, capture_output=True, text=True, env=ENV)
+    if r.returncode != 0 or not os.path.exists(out):
+        return None
+    res, ncases = [], 0
+    for line in open(out):
+        line = line.strip()
+        if line:
+            d = json.loads(line)
+            if d.get('summary'):
+                ncases = d['cases']
+            else:
+                res += d['mismatches']
+    return res if ncases else None
 
 
 def family_count(fam):
